@@ -75,7 +75,7 @@ def judge(ctx, rep, spec, pristine, ptree, ops, limit, coords, model_batch, pend
 
 
 def sweep(ctx, rep, model, focus):
-    nspec = 6 if ctx.quick else 24
+    nspec = 8 if ctx.quick else 24
     for si in range(nspec):
         spec = plotgen.random_spec(ctx.rng, ndims=[3, 2, 3][si % 3], nlev=[2, 2, 1, 3][si % 4], nf=[2, 3, 1][si % 3],
                                    data=["tags", "bits"][si % 2], B=2, layout=["scatter", "files", "perm"][si % 3],
